@@ -103,7 +103,7 @@ def check(ctx):
         for f_ in [n for n in walk_local(fi.node) if isinstance(n, ast.For)]:
             ok = not (isinstance(f_.iter, ast.Call) and callee_name(f_.iter) in ("count", "cycle", "repeat", "iter"))
             ctx.ob(rid, fi.fq, "for-loop iterates a finite collection", ok, node=f_, construct=f"for loop in {nm}")
-    ctx.floor("C12-R1", "while loops in readers", n_loops, 12)
+    ctx.floor("C12-R1", "while loops in readers", n_loops, 6)          # 13 on the reviewed tree; maintenance merges duplicated scanning loops (three rounds of refactorings went down to 10), the floor only guards against an analysis that sees none
 
     # ---- R2 summaries
     for nm, sm in summ.items():
